@@ -254,6 +254,10 @@ def lean_obligations(prop_id: str, extra_targets: list[str] | None = None, extra
                     res['problems'].append(f'{n}: non-standard axioms {bad}')
                 else:
                     res['discharged'] += 1
+        # a private copy of the driver for this run: another check (working on another tree) may regenerate the
+        # tables and relink the shared binary while this run is still using it
+        if res.get('driver_ok') and DRIVER.exists():
+            _private_driver()
         hits = grep_forbidden()
         if hits:
             res['ok'] = False
@@ -265,13 +269,24 @@ def lean_obligations(prop_id: str, extra_targets: list[str] | None = None, extra
 
 
 DRIVER = LEAN / '.lake' / 'build' / 'bin' / 'driver'
+_DRIVER_RUN = None
+
+
+def _private_driver():
+    global _DRIVER_RUN
+    import atexit
+    CACHE.mkdir(parents=True, exist_ok=True)
+    dst = CACHE / f'driver-{os.getpid()}'
+    shutil.copy2(DRIVER, dst)
+    _DRIVER_RUN = dst
+    atexit.register(lambda p=dst, pid=os.getpid(): (os.getpid() == pid) and p.unlink(missing_ok=True))
 
 
 def drive(lines: list[str]) -> list[dict]:
     """run protocol lines through the native Lean driver; one parsed dict per line"""
     if not lines:
         return []
-    r = subprocess.run([str(DRIVER)], input='\n'.join(lines) + '\n', stdout=subprocess.PIPE,
+    r = subprocess.run([str(_DRIVER_RUN or DRIVER)], input='\n'.join(lines) + '\n', stdout=subprocess.PIPE,
                        stderr=subprocess.PIPE, text=True)
     if r.returncode != 0:
         raise Infra(f'lean driver failed rc={r.returncode}: {r.stderr[-1000:]}')
